@@ -4,7 +4,7 @@ from runner import Job
 OPSET = {0: 'object operations (AddMember/RemoveMember/EraseMember/MemberReserve/CreateMap/DestroyMap/Clear/assign)',
          1: 'array operations (PushBack/PopBack/Erase/Reserve/Clear/assign)',
          2: 'node operations (Set*/CopyFrom/move/Swap/nesting, AddMember, PushBack, CreateMap) on either of two roots',
-         3: 'all 22 operations on either of two roots'}
+         3: 'all 23 operations on either of two roots'}
 ASSUME = ['clang-14 -O1 lowering preserves semantics; llsym implements the IR semantics it uses',
           'compiled with -D__SANITIZE_ADDRESS__, i.e. the library\'s sanitizer code path (key comparison never reads past the key); the production compare kernel is C14\'s subject',
           'libstdc++ red-black tree rebalancing (3 out-of-line functions used by std::multimap) is replaced by an unbalanced binary search tree with the same in-order contract; everything inlined from <map> executes as is',
@@ -19,5 +19,5 @@ def jobs(pid, mode, tier, defines=(), plan=None):
     for (steps, opset, pre, parsed, nproc) in plan:
         J.append(Job('%s.s%d.ops%d.pre%d.parsed%d' % (tag, steps, opset, pre, parsed), 'harness/c_dom.cpp', '@h_dom', [mode, steps, opset, pre, parsed],
                      defines=defs, nproc=nproc, timeout=3400, max_paths=5000000, max_steps=30000000,
-                     bound='every script of %d symbolic step(s) of %s, after %d concrete members/elements%s' % (steps, OPSET[opset], pre, ', starting from a parsed document' if parsed else '')))
+                     bound='every script of %d symbolic step(s) of %s, after %d concrete members/elements%s' % (steps, OPSET[opset], pre, {0: '', 1: ', starting from a parsed document', 2: ', starting from a parsed one-member object (capacity 1)', 3: ', starting from three members with a lookup map'}[parsed])))
     return J
